@@ -257,6 +257,19 @@ PROPERTIES = {
                     'abandonment while the response is being written; datagram loss during the reset'],
         assumptions=['quinn: dropping a RecvStream sends STOP_SENDING and the peer\'s SendStream::stopped() then resolves'],
     ),
+    'C19': dict(
+        units=['limits', 'enum_limits'],
+        canaries=['limits'],
+        scope='THE GLUE AROUND governor, WHICH IS A MODEL. Proved (Verus, unit limits): every service built by one RateLimitLayer shares the layer\'s one keyed limiter and wait mode. BOUNDED (unit enum_limits): the real '
+              '`call` of RateLimit (its async block, boxed) and the real constructors on a model of governor 0.6 (keyed GCRA) over a virtual clock: quota burst 1 or 2 per 10 time units, Block or ReturnError, every history of 4 '
+              'requests from peer 1 / peer 2 / without identity arriving 0 / 4 / 10 / 25 units apart through a service, its clone or a sibling: admissions of one peer within any window never exceed burst + window / period '
+              '(checked on the admission times); over quota a request gets TooManyRequests with a positive integer wait-nanos header and never reaches the service (ReturnError) or waits outside the service and gets in '
+              'once the quota allows (Block); one peer exhausting its quota changes nothing for the other; no identity -> InternalServerError.',
+        unverified=['governor itself (GCRA arithmetic, its clock, its concurrent state store): a sequential model with the same API over a virtual clock; the admitted-count bound under real time and parallel calls is governor\'s guarantee',
+                    'that the wait-nanos hint is ACCURATE (only: present, an integer, positive)',
+                    'more than 4 requests, 2 peers, other quotas'],
+        assumptions=['the executable model of governor in unit enum_limits (stated in its docstring)'],
+    ),
     'C02': dict(
         units=['wire', 'kani_wire', 'crypto', 'timeout'],
         canaries=['wire', 'streams', 'crypto', 'timeout'],
@@ -278,5 +291,4 @@ NOTES = ('Every check re-extracts the functions it depends on from /repo\'s work
 PENDING = 'within reach of the technique (DESIGN.md section 5) but its unit is not built yet; not claimed until it runs green with guards'
 NOT_APPLICABLE = {
      'C08': 'shutdown: task joins, channel closure, socket release and runtime teardown at every point in time; no function-level contract expresses it and neither verifier models tokio tasks or Drop ordering (DESIGN.md section 6)',
-    'C19': 'rate limit: the admitted-count bound is governor\'s GCRA over real time; only one sequential clause is in reach, which would leave the property undecided (section 6)',
 }
